@@ -107,6 +107,9 @@ type op struct {
 	cheque    *chequePkg.SignedCheque
 }
 
+// wrapStore, when set, wraps the state store a new world hands to the real cheque store.
+var wrapStore func(storage.StateStorer) storage.StateStorer
+
 type world struct {
 	self    *trafficx.Party
 	reg     []*trafficx.Party // registered peers
@@ -161,6 +164,9 @@ func newWorld(t *testing.T, rng *rand.Rand, nreg int) *world {
 	st, err := trafficx.NewMemStore()
 	if err != nil {
 		t.Fatal(err)
+	}
+	if wrapStore != nil {
+		st = wrapStore(st)
 	}
 	w.store = st
 	chain := trafficx.NewChain()
